@@ -147,6 +147,22 @@ def oracle_c09(r, an, info, rng):
             m = (r._data["XX"] > np.maximum(1e-280, 1e-18 * float(np.mean(xs * xs)) * np.asarray(r.L, float)))
             if np.any(np.abs(coh[m] - 1) > 1e-8):
                 out.append(("coh1:dependent", "coherence != 1 for linearly dependent channels: %r" % coh[m][np.argmax(np.abs(coh[m] - 1))]))
+        if info["which"] != "single":
+            rf = an.compute()        # a fresh result object
+            base = ["Gxy", "csd", "Gxx", "Gyy", "coh", "Hxy"]
+            before = {nm: np.array(getattr(rf, nm), copy=True) for nm in base}
+            for nm in ("cs", "Gyx", "Hyx", "GyySx", "GyyCx", "GyyRx", "ccoh"):
+                getattr(rf, nm)
+            try:
+                rf.to_dataframe()
+            except Exception:
+                pass
+            for nm, v0 in before.items():
+                v1 = np.asarray(getattr(rf, nm))
+                if not np.array_equal(v0, v1, equal_nan=True):
+                    j1 = int(np.nonzero(~((v0 == v1) | (np.isnan(v0) & np.isnan(v1))))[0][0])
+                    out.append(("stable:" + nm, "%s changes after cs / Gyx / the residual views / the export have been read from the same result: %r -> %r at bin %d" % (nm, v0[j1], v1[j1], j1)))
+                    break
         if not close(r.GyyCx + r.GyyRx, r.Gyy, rtol=1e-12, atol=1e-300):
             out.append(("Cx+Rx", "GyyCx + GyyRx != Gyy"))
         scale = np.maximum(r.Gyy, 1e-300)
@@ -234,6 +250,14 @@ def per_segment_xy(an, r, j):
 
 def oracle_c11(r, an, info, rng):
     out = []
+    # the count the empirical variance is divided by is the number of segments actually averaged (the starts the result reports)
+    try:
+        nd = np.array([len(np.asarray(dj).ravel()) for dj in r.D])
+        if not (np.array_equal(nd, np.asarray(r.navg).astype(int)) and np.array_equal(nd, np.asarray(r.K).astype(int))):
+            j = int(np.nonzero((nd != np.asarray(r.navg).astype(int)) | (nd != np.asarray(r.K).astype(int)))[0][0])
+            out.append(("navg=len(D)", "bin %d: navg=%d, K=%d but %d segment starts are reported" % (j, int(r.navg[j]), int(r.K[j]), int(nd[j]))))
+    except Exception as e:
+        out.append(("navg=len(D)", "cannot compare navg with the reported starts: %s" % e))
     with np.errstate(all="ignore"):
         d = r._data
         n = np.asarray(d["navg"], float); M2 = np.asarray(d["M2"], float); S2 = np.asarray(d["S2"], float)
@@ -322,7 +346,7 @@ def oracle_c06(r, an, info, rng):
             r = an.compute()          # a fresh result object: nothing has been read from it yet
         base = ["Gxx", "Gyy", "ENBW"] + (["Gxy", "cs", "Hxy", "coh"] if r.iscsd else ["psd", "asd", "ps", "G"])
         before = {nm: np.array(getattr(r, nm), copy=True) for nm in base if getattr(r, nm) is not None}
-        for nm in ["Gxx_dev", "Gyy_dev", "Gxx_error", "Gyy_error"] + (["Gxy_dev", "Gxy_error", "Hxy_dev", "coh_dev", "coh_error"] if r.iscsd else []):
+        for nm in ["Gxx_dev", "Gyy_dev", "Gxx_error", "Gyy_error"] + (["cs", "Gxy_dev", "Gxy_error", "Hxy_dev", "coh_dev", "coh_error"] if r.iscsd else ["ps", "asd", "psd", "G"]):
             try:
                 getattr(r, nm)
             except AttributeError:
